@@ -365,6 +365,10 @@ fn run() {
                 cmd::run(&mut report);
                 report.rule = format!("{rule} + command layer: exit status and printed conclusion of real `check` runs against the resolver's conclusion on the same store");
             }
+            if prop == "C04" {
+                // violations through the commands: recorded ones are exported, none is dropped
+                ucmd::run(&mut report);
+            }
             if prop == "C12" {
                 // the clean-ups of certify / trust / import prune the target's exemptions too
                 ucmd::run(&mut report);
